@@ -30,9 +30,9 @@ ASSUMPTIONS = [
 ]
 MIN_NONTRIVIAL = {"quick": 250, "thorough": 2500}
 REQUIRED = {"quick": {"snapshot_comparisons": 4000, "history_calls": 4000, "raising_calls": 300, "param_object_checks": 600, "fit_repeat_checks": 300, "clean_spill_runs": 12,
-                      "faults_injected": 60, "faults_fired": 60, "audit_events": 50, "estimators_covered": 20},
+                      "faults_injected": 60, "faults_fired": 60, "refits_after_fault": 20, "audit_events": 50, "estimators_covered": 20},
             "thorough": {"snapshot_comparisons": 40000, "history_calls": 40000, "raising_calls": 3000, "param_object_checks": 6000, "fit_repeat_checks": 3000, "clean_spill_runs": 60,
-                         "faults_injected": 400, "faults_fired": 400, "audit_events": 300, "estimators_covered": 20}}
+                         "faults_injected": 400, "faults_fired": 400, "refits_after_fault": 100, "audit_events": 300, "estimators_covered": 20}}
 
 from vv.props.C02 import GROUPS  # noqa: E402
 
@@ -360,6 +360,7 @@ def run_files(ctx):
             clean_exc = e
         ctx.count("clean_spill_runs")
         ctx.count("audit_events", len(tracer.events))
+        clean_embedding = np.asarray(est.embedding_).copy() if clean_exc is None and hasattr(est, "embedding_") else None
         created = [e for e in tracer.events if e[0] in ("tempfile.mkdtemp", "os.mkdir", "open")]
         ctx.seen("spill_sites", kind)
         left = [p for p in tracer.leftovers() if p.startswith(os.path.relpath(cd, base))]
@@ -435,6 +436,28 @@ def run_files(ctx):
                 # estimator after the failed fit: unfitted, or usable
                 if raised is not None and not isinstance(raised, OSError):
                     ctx.count("observation:fault-surfaced-as-%s" % type(raised).__name__)
+                # ... and not poisoned: the *same* estimator object, fitted again without the fault, must give the
+                # embedding of the clean run (and leave nothing behind)
+                if raised is not None and (k == ks[0] or k == ks[-1]):
+                    try:
+                        _, args2, kw2 = build_spill(kind, cdk, V, seed)
+                        with tracer:
+                            est.fit(*args2, **kw2)
+                        ctx.count("refits_after_fault")
+                        e_after = np.asarray(est.embedding_)
+                        if clean_embedding is not None and (e_after.shape != clean_embedding.shape or not np.allclose(e_after, clean_embedding, rtol=1e-9, atol=1e-9)):
+                            ctx.violation("C13/files/%s/refit-after-fault-differs/%s" % (kind, tname), "fitting the same estimator again after an injected fault gives another embedding than a clean fit", fcase, None, sig=sigk)
+                            shutil.rmtree(cdk, ignore_errors=True)
+                            continue
+                        left = [p for p in tracer.leftovers() if p.startswith(rel) and p != rel]
+                        if left:
+                            ctx.violation("C13/files/%s/leftover-after-refit" % kind, "paths remain after the successful re-fit: %s" % left[:3], fcase, None, sig=sigk)
+                            shutil.rmtree(cdk, ignore_errors=True)
+                            continue
+                    except Exception as e2:
+                        ctx.violation("C13/files/%s/refit-after-fault-raises/%s" % (kind, type(e2).__name__), "the estimator cannot be fitted again after the injected fault: %s" % str(e2)[:160], fcase, None, sig=sigk)
+                        shutil.rmtree(cdk, ignore_errors=True)
+                        continue
                 ctx.ok(sigk, fired[0])
                 shutil.rmtree(cdk, ignore_errors=True)
         shutil.rmtree(cd, ignore_errors=True)
